@@ -403,22 +403,30 @@ def feedback_case(p, res):
                     return x + 1000
                 return (x if x is not None else torch.tensor(0.0)) + {"processor": 0.5, "encoder": 1, "fwd": 10, "decoder": 100, "fb": 10000}[tag]
         return R()
-    for it in range(1, 6):
+    names = ["encoder", "forward_channel", "decoder", "feedback_generator", "feedback_channel", "feedback_processor"]
+    for it, spelling in [(i, sp) for i in range(1, 6) for sp in ("keyword", "positional", "all-keywords")]:
         del log[:]
-        m = FeedbackChannelModel(mk(BaseModel, "encoder"), mk(BaseChannel, "fwd"), mk(BaseModel, "decoder"), mk(BaseModel, "generator"), mk(BaseChannel, "fb"), mk(BaseModel, "processor"), max_iterations=it)
+        parts = [mk(BaseModel, "encoder"), mk(BaseChannel, "fwd"), mk(BaseModel, "decoder"), mk(BaseModel, "generator"), mk(BaseChannel, "fb"), mk(BaseModel, "processor")]
+        cfgf = f"iterations={it}" + ("" if spelling == "keyword" else f",{spelling}")
         try:
+            if spelling == "keyword":
+                m = FeedbackChannelModel(*parts, max_iterations=it)
+            elif spelling == "positional":
+                m = FeedbackChannelModel(*parts, it)
+            else:
+                m = FeedbackChannelModel(**dict(zip(names, parts)), max_iterations=it)
             out = m(torch.tensor(1.0))
         except Exception as e:  # noqa: BLE001
-            res.viol("feedback", f"iterations={it}", "raises", f"{type(e).__name__}: {e}")
+            res.viol("feedback", cfgf, "raises", f"{type(e).__name__}: {e}")
             continue
         res.ev(1, nontrivial=1, transitions=1)
         exp = []
         for i in range(it):
             exp += (["processor"] if i > 0 else []) + ["encoder", "fwd", "decoder", "generator", "fb"]
         if log != exp:
-            res.viol("feedback", f"iterations={it}", "rounds" if log.count("encoder") != it else "order", f"components ran {log}, expected {exp}")
+            res.viol("feedback", cfgf, "rounds" if log.count("encoder") != it else "order", f"components ran {log}, expected {exp}")
         elif len(out["iterations"]) != it or len(out["feedback_history"]) != it or float(out["final_output"]) != float(out["iterations"][-1]["decoded"]) or float(out["final_output"]) != 112.0:
-            res.viol("feedback", f"iterations={it}", "rounds", f"{len(out['iterations'])} rounds recorded, final_output {out.get('final_output')}")
+            res.viol("feedback", cfgf, "rounds", f"{len(out['iterations'])} rounds recorded, final_output {out.get('final_output')}")
     res.sample({"iterations": "1..5"})
 
 
@@ -582,3 +590,24 @@ def tlc_case(p, res):
             if orders != mine:
                 res.viol("parallel", f"tlc,n={n},w={w}", "oracle-crash", f"TLC terminal orders ({len(orders)}) differ from the explorer's feasibility model ({len(mine)}); TLC exit {r.returncode}: {r.stdout[-300:]}")
     res.sample({"tlc_model": "models/PoolGather.tla", "n": "1..5"})
+
+
+# ----------------------------------------------------------------------------- spelling equivalence of the constructors behind this property
+# (positional / keyword / mixed spellings of one legal call configure the same object; shared helper kmc/spelling.py)
+_cases0, _execute0, _component0 = cases, execute, component_of
+
+
+def cases(tier, seed):  # noqa: F811
+    yield from _cases0(tier, seed)
+    yield f"{PID}|spelling", {"kind": "spelling", "tier": tier}
+
+
+def execute(p, res):  # noqa: F811
+    if p.get("kind") == "spelling":
+        from kmc import spelling
+        return spelling.run(PID, res)
+    return _execute0(p, res)
+
+
+def component_of(p):  # noqa: F811
+    return "spelling" if p.get("kind") == "spelling" else _component0(p)
